@@ -893,6 +893,9 @@ class C05(Check):
                                  ["fail_closed" if served else "deny_before_change" if cnt else "malformed_never_widens"],
                                  [code, cnt], [1 if spec2 else 0]))
         report["extra"]["illtyped_hash_order_checks"] = n
+        # these are judged by the tolerant rule only; the model (and so C05_covered_cases) is not involved
+        report["extra"]["cases_outside_theorem_hypotheses"] = \
+            report["extra"].get("cases_outside_theorem_hypotheses", 0) + n
         if self.world is not None:
             self.world.close()
             self.world = None
